@@ -14,8 +14,16 @@ use std::sync::{Arc, Mutex};
 
 const THREADS: u64 = 16;
 
-/// run `f` on every value of 0..n split over threads; returns (evaluations, nontrivial, failures)
+thread_local! { static WITNESS: std::cell::Cell<u64> = std::cell::Cell::new(u64::MAX); }
+/// record the concrete input about to be fed to the crate (reported instead of the sweep index when it fails or panics)
+fn witness(x: u64) {
+    WITNESS.with(|w| w.set(x));
+}
+
+/// run `f` on every value of 0..n split over threads; returns (evaluations, nontrivial, failures).
+/// A panic inside `f` (overflow check, index, unwrap in the crate) counts as a failure of that input.
 fn sweep<F: Fn(u64) -> (bool, bool) + Send + Sync + 'static>(n: u64, f: F) -> (u64, u64, Vec<u64>) {
+    std::panic::set_hook(Box::new(|_| {}));
     let f = Arc::new(f);
     let fails = Arc::new(Mutex::new(Vec::new()));
     let nontrivial = Arc::new(AtomicU64::new(0));
@@ -26,27 +34,26 @@ fn sweep<F: Fn(u64) -> (bool, bool) + Send + Sync + 'static>(n: u64, f: F) -> (u
             let (lo, hi) = (n * t / THREADS, n * (t + 1) / THREADS);
             let mut nt = 0u64;
             for x in lo..hi {
-                let (ok, interesting) = f(x);
+                WITNESS.with(|w| w.set(u64::MAX));
+                let r = std::panic::catch_unwind(std::panic::AssertUnwindSafe(|| f(x)));
+                let (ok, interesting) = r.unwrap_or((false, true));
                 nt += interesting as u64;
                 if !ok {
+                    let wv = WITNESS.with(|w| w.get());
                     let mut g = fails.lock().unwrap();
                     if g.len() < 16 {
-                        g.push(x);
+                        g.push(if wv != u64::MAX { wv } else { x });
                     }
                 }
             }
             nontrivial.fetch_add(nt, AO::Relaxed);
         }));
     }
-    let mut panicked = false;
     for h in hs {
-        panicked |= h.join().is_err();
+        let _ = h.join();
     }
     let mut v = fails.lock().unwrap().clone();
     v.sort();
-    if panicked {
-        v.push(u64::MAX); // a worker panicked (overflow check / index / unwrap inside the crate)
-    }
     (n, nontrivial.load(AO::Relaxed), v)
 }
 
